@@ -280,6 +280,40 @@ pub fn run(tier: &str, seed: u64, replay: Option<String>) -> i32 {
             }
         }
     }
+    // generated projects: two definitions whose names differ only in case or in repeated blanks,
+    // the used one under the new spelling and an unused twin under the old one
+    let mut n_near = 0usize;
+    for f in &files {
+        let lines = diskfault::split_lines(&f.text);
+        let mut per_type: BTreeMap<String, usize> = BTreeMap::new();
+        let mut blocks = diskfault::scan_blocks(&lines);
+        rng.shuffle(&mut blocks);
+        for b in blocks {
+            if !matches!(b.btype.as_str(), "GAP" | "MATERIAL" | "GLASS-TYPE" | "NAME-FRAME" | "LAYERS" | "SPACE-CONDITIONS" | "SYSTEM-CONDITIONS" | "SCHEDULE-PD" | "WEEK-SCHEDULE-PD" | "DAY-SCHEDULE-PD") {
+                continue;
+            }
+            let seen = per_type.entry(b.btype.clone()).or_insert(0);
+            *seen += 1;
+            if *seen > (if thorough { 12 } else { 2 }) {
+                continue;
+            }
+            for how in ["blank2", "lower", "upper", "trail"] {
+                if crate::engines::procsim::near_name(&b.name, how).is_none() {
+                    continue;
+                }
+                n_near += 1;
+                nocat_jobs.push(DJob {
+                    file: f.rel.clone(),
+                    edit: Edit::NearNamePair { line: b.start, how: how.to_string() },
+                    cell: format!("near_identical_names|{}|{}", b.btype, how),
+                    level: 1,
+                    e2e: false,
+                    closure: true,
+                    cost: f.text.len(),
+                });
+            }
+        }
+    }
     let clone_budget = if thorough { 60_000 } else { 4_500 };
     if clone_jobs.len() > clone_budget {
         rng.shuffle(&mut clone_jobs);
@@ -440,6 +474,7 @@ pub fn run(tier: &str, seed: u64, replay: Option<String>) -> i32 {
     extra.insert("unused_copy_damage_space".into(), json!(n_clone_space));
     extra.insert("unused_copy_damage_run".into(), json!(n_clone));
     extra.insert("definitions_renamed_to_catalogue_names".into(), json!(n_nocat));
+    extra.insert("near_identical_name_pairs".into(), json!(n_near));
     extra.insert("fault_kinds_fired".into(), json!(fired));
     extra.insert("outcome_classes".into(), json!(classes));
     extra.insert("models_returned_after_a_fault".into(), json!(ok_models_after_fault));
